@@ -73,3 +73,69 @@ def kernel_consts(emit):
     extract.find(PREPARED, r"if defaults != expected_defaults \{")
     # clamp (repaired code)
     extract.find(MATH, r"pub fn builtin_clamp\(x: f64, minVal: f64, maxVal: f64\) -> f64 \{(?:\s*//[^\n]*)*\s*if x < minVal \{\s*minVal\s*\} else if x > maxVal \{\s*maxVal\s*\} else \{\s*x\s*\}\s*\}")
+
+
+# ---- round 3: shapes of the repaired code and of the kernels of Model/TotalKern.lean -------------
+EXPR = "crates/jrsonnet-ir/src/expr.rs"
+IRP = "crates/jrsonnet-ir-parser/src/lib.rs"
+PEGP = "crates/jrsonnet-peg-parser/src/lib.rs"
+OBJ = "crates/jrsonnet-evaluator/src/obj/mod.rs"
+EVAL = "crates/jrsonnet-evaluator/src/evaluate/mod.rs"
+OPER = "crates/jrsonnet-evaluator/src/evaluate/operator.rs"
+VALRS = "crates/jrsonnet-evaluator/src/val.rs"
+ARRS = "crates/jrsonnet-stdlib/src/arrays.rs"
+MISC = "crates/jrsonnet-stdlib/src/misc.rs"
+PY = "crates/jrsonnet-stdlib/src/manifest/python.rs"
+TOML = "crates/jrsonnet-stdlib/src/manifest/toml.rs"
+STRS = "crates/jrsonnet-stdlib/src/strings.rs"
+TRACE = "crates/jrsonnet-evaluator/src/trace/mod.rs"
+
+
+@extract.extra_const
+def round3_shapes(emit):
+    # 1. duplicate_name: the loop of Model/TotalKern.lean::duplicateNameGo, and both parsers use it
+    extract.find(EXPR, r"pub fn duplicate_name\(exprs: &\[ExprParam\]\) -> Option<IStr> \{\s*for \(i, param\) in exprs\.iter\(\)\.enumerate\(\) \{\s*if let ParamName::Named\(name\) = param\.destruct\.name\(\) \{\s*if exprs\[\.\.i\]\.iter\(\)\.any\(\|p\| p\.destruct\.name\(\) == name\) \{\s*return Some\(name\);\s*\}\s*\}\s*\}\s*None\s*\}")
+    extract.find(IRP, r"result\.push\(ExprParam \{\s*destruct: d,\s*default,\s*\}\);\s*if let Some\(name\) = ExprParams::duplicate_name\(&result\) \{\s*return Err\(ParseError \{")
+    extract.find(PEGP, r"= params:param\(s\) \*\* comma\(\) comma\(\)\? \{\?\s*if ExprParams::duplicate_name\(&params\)\.is_some\(\) \{\s*return Err\(\"<unique parameter name>\"\)\s*\}\s*Ok\(ExprParams::new\(params\)\)\s*\}")
+    # every ExprParams::new outside the constructor itself sits in a params rule (checked or empty list)
+    for rel, want in ((IRP, 2), (PEGP, 2)):
+        n = len(re.findall(r"ExprParams::new\(", extract.src(rel)))
+        if n != want:
+            raise ExtractError(f"{rel}: ExprParams::new occurs {n} times, expected {want} (checked list + empty list)")
+    # 2. pending markers of get_idx: Model/TotalKern.lean::enter
+    extract.find(OBJ, r"Entry::Occupied\(mut v\) => match v\.get\(\) \{\s*CacheValue::Cached\(v\) => return v\.clone\(\),\s*CacheValue::Pending => \{\s*if !is_asserting\(self\) \{\s*bail!\(InfiniteRecursionDetected\);\s*\}(?:\s*//[^\n]*)*\s*v\.insert\(CacheValue::PendingAsserting\);\s*\}\s*CacheValue::PendingAsserting => bail!\(InfiniteRecursionDetected\),\s*\},\s*Entry::Vacant\(v\) => \{\s*v\.insert\(CacheValue::Pending\);")
+    # 3. native value walkers recurse inside in_description_frame
+    walkers = [
+        (ARRS, r"in_description_frame\(\s*\|\| format!\(\"elem <\{i\}> joining\"\),\s*\|\| deep_join_inner\(out, indexable\),\s*\)\?"),
+        (ARRS, r"in_description_frame\(\s*\|\| format!\(\"elem <\{i\}> flattening\"\),\s*\|\| process\(ele, out\),\s*\)\?"),
+        (ARRS, r"in_description_frame\(\s*\|\| format!\(\"elem <\{i\}> pruning\"\),\s*\|\| \{\s*builtin_prune\("),
+        (ARRS, r"in_description_frame\(\s*\|\| format!\(\"field <\{name\}> pruning\"\),\s*\|\| \{\s*builtin_prune\("),
+        (MISC, r"in_description_frame\(\s*\|\| format!\(\"field <\{field\}> patching\"\),\s*\|\| builtin_merge_patch\(field_target, field_patch\),\s*\)\?"),
+        (PY, r"in_description_frame\(\s*\|\| format!\(\"elem <\{i\}> manifestification\"\),\s*\|\| self\.manifest_buf\(el, buf\),\s*\)\?"),
+        (PY, r"in_description_frame\(\s*\|\| format!\(\"field <\{field\}> manifestification\"\),\s*\|\| self\.manifest_buf\(value, buf\),\s*\)\?"),
+        (TOML, r"in_description_frame\(\s*\|\| format!\(\"section <\{k\}> manifestification\"\),\s*\|\| match v \{\s*Val::Obj\(obj\) => manifest_table\(&obj, path, buf, cur_padding, options\),\s*Val::Arr\(arr\) => manifest_table_array\(&arr, path, buf, cur_padding, options\),"),
+        (OPER, r"in_description_frame\(\s*\|\| format!\(\"elem <\{i\}> comparison\"\),\s*\|\| evaluate_compare_op\(&a, &b, op\),\s*\)\?"),
+        (VALRS, r"in_description_frame\(\|\| format!\(\"elem <\{i\}> comparison\"\), \|\| equals\(&a, &b\)\)\?"),
+        (VALRS, r"in_description_frame\(\s*\|\| format!\(\"field <\{field\}> comparison\"\),\s*\|\| equals\(&a, &b\),\s*\)\?"),
+    ]
+    for rel, pat in walkers:
+        extract.find(rel, pat)
+    # no recursive call of these walkers outside a frame: count textual self-calls
+    for rel, name, want in ((OPER, r"evaluate_compare_op\(", 6), (VALRS, r"\bequals\(", 3), (MISC, r"builtin_merge_patch\(", 2)):
+        n = len(re.findall(name, extract.src(rel)))
+        if n != want:
+            raise ExtractError(f"{rel}: `{name}` occurs {n} times, expected {want} (definition, uses, framed recursion)")
+    # field / element access of an index expression is a frame
+    extract.find(EVAL, r"\(Val::Obj\(v\), Val::Str\(key\)\) => match in_frame\(\s*CallLocation::new\(&part\.span\),\s*\|\| format!\(\"field <\{key\}> access\"\),\s*\|\| v\.get\(key\.clone\(\)\.into_flat\(\)\),\s*\)\? \{")
+    extract.find(EVAL, r"in_frame\(\s*CallLocation::new\(&part\.span\),\s*\|\| format!\(\"element <\{n\}> access\"\),\s*\|\| v\.get\(n as usize\),\s*\)\?")
+    # 4. the `<<` arm: Model/TotalKern.lean::shlCore
+    extract.find(OPER, r"\(Num\(v1\), Lhs, Num\(v2\)\) => \{\s*if v2\.get\(\) < 0\.0 \{\s*bail!\(\"shift by negative exponent\"\)\s*\}\s*let base = v1\.truncate_for_bitwise\(\)\?;\s*let exp = v2\.truncate_for_bitwise\(\)\? % 64;\s*if exp >= 1\s*&& \(base >= \(1i64 << \(63 - exp as u32\)\) \|\| base < -\(1i64 << \(63 - exp as u32\)\)\)\s*\{\s*bail!\(\"left shift would overflow\"\)\s*\}\s*Val::try_num\(base\.wrapping_shl\(exp as u32\) as f64\)\?")
+    # 5. builtin_find_substr: Model/TotalKern.lean::findSubstrK
+    extract.find(STRS, r"if pat\.is_empty\(\) \|\| str\.is_empty\(\) \|\| pat\.len\(\) > str\.len\(\) \{\s*return ArrValue::empty\(\);\s*\}\s*let str = str\.as_str\(\);\s*let pat = pat\.as_bytes\(\);\s*let strb = str\.as_bytes\(\);\s*let max_pos = str\.len\(\) - pat\.len\(\);")
+    extract.find(STRS, r"\.char_indices\(\)\s*\.take_while\(\|\(i, _\)\| i <= &max_pos\)\s*\.enumerate\(\)\s*\{\s*if &strb\[i\.\.i \+ pat\.len\(\)\] == pat \{")
+    # 6. print_code_location: one plain `column - 1`, two saturating ones
+    m, w = extract.find(TRACE, r"fn print_code_location\(.*?\n\}\n", re.S)
+    body = m.group(0)
+    if len(re.findall(r"start\.column - 1", body)) != 1 or len(re.findall(r"column\.saturating_sub\(1\)", body)) != 2:
+        raise ExtractError(f"{w}: print_code_location no longer has one `start.column - 1` and two `column.saturating_sub(1)`")
+    emit("C04_ROUND3_SHAPES", "true", w, "duplicate_name, get_idx markers, framed walkers, << arm, find_substr, print_code_location", ty="Bool")
